@@ -753,6 +753,10 @@ def sensor_to_categorical(sensor_timestamps, sensor_values, dump_midtimes,
     events[0] = 0
     # Clean up dump->event mapping, taking into account greedy values
     greedy_values = () if greedy_values is None else greedy_values
+    if wrapped_values:
+        # Compare wrapped sensor values with wrapped greedy values (a bare array on the left-hand side
+        # of `==` would compare elementwise, which has no truth value)
+        greedy_values = [ComparableArrayWrapper(value) for value in greedy_values]
     greedy = [value in greedy_values for value in sensor_values]
     # Add one-past-last-dump terminator (will be removed again by `cleaned_up`)
     events = np.r_[events, num_dumps]
